@@ -374,6 +374,10 @@ var seedStatementSnippets = []string{
 	"a := []int{1, 2, 3}; b := []int{9}; n := copy(a, b); copy(a, b); _ = n",
 	"func cp() int { a := []int{1, 2, 3}; n := copy(a, []int{7, 8}); return n + a[0] }; r := cp(); _ = r",
 	"func f(_ int, _ int, x int) int { y := x; return y }; r := f(1, 2, 3); _ = r",
+	// functions of the package and local function values named like builtins: their calls are ordinary calls
+	"func delete(a, b, c int) { }; func g() int { k := 7; delete(1, 2, 3); return k }; x := g(); _ = x",
+	"func len(a, b int) int { return a + b }; func g() int { k := 7; k = len(1, 2); return k }; x := g(); _ = x",
+	"func g() int { copy := func(n int) int { return n + 1 }; k := 3; k = copy(k); return k }; x := g(); _ = x",
 	// clauses with three and more values whose tests have different lengths; a bare call as the condition of a for statement
 	"x := 2; y := 5; z := 0; switch x { case 9, 1, y + 10, 7: z = 1; case y + 20, 8, 2: z = 3; case 0, 11, 12, 13: z = 4 }",
 	"func pick(x int) int { y := 5; switch x { case 9, 1, y + 10, 7: return 10; case y + 20, 8, 2: return 20 }; return 30 }; a := pick(1); b := pick(2); c := pick(15); d := pick(4); _ = a + b + c + d",
